@@ -132,5 +132,10 @@ __CPROVER_requires((mathint)chunkSize % (mathint)granularity == 0 && ((mathint)e
 __CPROVER_assigns()
 {
   PairII a = dyn_single_chunk(start, end, cur, chunkSize, numChunks);
-  __CPROVER_assert(((mathint)a.second - (mathint)a.first) % (mathint)granularity == 0, "dynamic chunk size is a multiple of the granularity");
+  mathint qc = (mathint)chunkSize / (mathint)granularity;
+  mathint qs = ((mathint)end - (mathint)start) / (mathint)granularity;
+  __CPROVER_assert((mathint)chunkSize == qc * (mathint)granularity && (mathint)end - (mathint)start == qs * (mathint)granularity, "witnesses of the divisibility hypotheses");
+  /* "multiple of the granularity" with an explicit witness: a full chunk (qc units) or the rest of the range (qs - cur*qc units) */
+  __CPROVER_assert((mathint)a.second - (mathint)a.first == qc * (mathint)granularity ||
+                   (mathint)a.second - (mathint)a.first == (qs - (mathint)cur * qc) * (mathint)granularity, "dynamic chunk size is a multiple of the granularity");
 }
